@@ -374,6 +374,10 @@ bool ImportProject::importCompileCommands(std::istream &istr)
     std::map<std::string, std::size_t> fsFileIds;
 
     for (const picojson::value &fileInfo : compileCommands.get<picojson::array>()) {
+        if (!fileInfo.is<picojson::object>()) {
+            errors.emplace_back("compilation database entry is not a JSON object");
+            return false;
+        }
         picojson::object obj = fileInfo.get<picojson::object>();
 
         if (obj.count("directory") == 0) {
